@@ -793,14 +793,16 @@ def slowreader_gen(rng, tier):
     i = 0
     for rep in range(budget(tier, 1, 4)):
         for l in ("tcp", "tls", "gnet"):
-            cfg = "U=u;E=0;S=-;R=-:0:0:0;T=1;X=%d" % (8800 + i)
+            # (M: the in-flight cap is out of the way, every query is answered with a 6 KiB response: megabytes pile up in
+            # the socket buffers and in the listener's own write queue while the client does not read - seed C13-R)
+            cfg = "U=u;E=0;S=-;R=-:0:0:0;T=1;M=4000;X=%d" % (8800 + i)
             name = gens.raw_name([b"slow%d" % i, rng.choice(VOCAB), b"test"])
             question = name + b"\0" + struct.pack(">HH", 16, 1)
             txt = bytes(rng.randrange(97, 123) for _ in range(250))
             rr = b"\xc0\x0c" + struct.pack(">HHIH", 16, 1, 60, 251) + b"\xfa" + txt
-            reply = struct.pack(">HHHHHH", 0, 0x8180, 1, 3, 0, 0) + question + rr * 3
+            reply = struct.pack(">HHHHHH", 0, 0x8180, 1, 24, 0, 0) + question + rr * 24
             q = struct.pack(">HHHHHH", 0, 0x0100, 1, 0, 0, 0) + question
-            out.append("sl%d cfg=%s l=%s n=%d hold=%d q=%s up=reply:%s" % (i, cfg, l, rng.choice([300, 600]), rng.choice([1500, 2500]),
+            out.append("sl%d cfg=%s l=%s n=%d hold=%d q=%s up=reply:%s" % (i, cfg, l, rng.choice([600, 1000]), rng.choice([1500, 2500]),
                                                                         gens.hx(q), gens.hx(reply)))
             i += 1
     return out
@@ -872,6 +874,8 @@ PROPS["C01"]["rule"] += ("; dohget: the RAW text of the dns parameter of DoH GET
                          "fasthttp listeners, status and response compared with Net/DohGet.v + handle")
 PROPS["C03"]["kinds"].append(slowreader_kind())
 PROPS["C03"]["rule"] += "; slowreader: many pipelined queries on one stream connection read after a pause: one response per query (oracle only)"
+PROPS["C13"]["kinds"].append(slowreader_kind())
+PROPS["C13"]["rule"] += "; slowreader: 600 / 1000 pipelined queries with 6 KiB responses on one tcp / tls / gnet connection read after 1.5 - 2.5 s: one well-framed response per query"
 PROPS["C03"]["kinds"].append(recover_kind())
 PROPS["C03"]["rule"] += ("; recover: on every listener kind a client bursts through its limiter budget, pauses until the bucket is "
                          "full and asks again: the listener must still answer from the upstream (oracle only)")
